@@ -51,11 +51,13 @@ func EncodeJSONFile(path string, obj interface{}) error {
 		os.Remove(tmp)
 		return err
 	}
+	verifCrash("closed", nil, nil)
 
 	if err := os.Rename(tmp, path); err != nil {
 		os.Remove(tmp)
 		return err
 	}
+	verifCrash("renamed", nil, nil)
 
 	// make the rename itself durable (best effort)
 	if dir, err := os.Open(filepath.Dir(path)); err == nil {
